@@ -304,7 +304,7 @@ def run(chk):
     chains = [c[0] for c in parse_prints(r["out"], "QCHAIN")]
     if len(chains) < 100:
         raise MachineryError("TLC emitted only %d query chains" % len(chains))
-    parts = pmap(_qchain_events, [chains[i::16] for i in range(16)])
+    parts = pmap(_qchain_events, [chains[i::16] for i in range(16)], empty=lambda: ([], 0, 0))
     evs += [e for p in parts for e in p[0]]
     chk.extra["query_chains_replayed"] = len(chains)
     chk.extra["algo_fidelity"] = {"real_steps": sum(p[1] for p in parts),
